@@ -28,7 +28,7 @@ LIM = {"quick": dict(NO=1), "thorough": dict(NO=2)}
 def bounds(tier):
   d = dict(LIM[tier]); d["meaning"] = ("NO = max other prior subscribers; ds/ns subscriber decorated/named; when 0 before start,1 after from outside,2 from a handler; "
                                        "kind 0 fifo/1 lifo; others mask = which others are decorated; prole 0 subscriber publishes,1 another started object,2 an object "
-                                       "that publishes before its start_at; pd publisher decorated; npub publications")
+                                       "that publishes before its start_at; pd publisher decorated; npub publications; okind 1 = the other subscribers use the opposite kind (fifo/lifo) of the subscriber")
   return d
 
 
@@ -40,6 +40,8 @@ def pre(v, lim):
   if v["omask"] >= top:
     return False
   if v["prole"] == 0 and v["pd"] != 0:
+    return False
+  if v["okind"] == 1 and no == 0:
     return False
   return True
 
@@ -85,18 +87,19 @@ def pump_all(objs):
     fabric.pump_fabric()
 
 
-def case(ds, ns, when, kind, no, omask, prole, pd, npub):
+def case(ds, ns, when, kind, no, omask, prole, pd, npub, okind=0):
   hsm, ao = fabric.install()
   from miros.event import Event
   K = "lifo" if kind else "fifo"
+  OK = K if not okind else ("fifo" if kind else "lifo")      # the other subscribers use the same kind or the opposite one
   what = "subscriber(deco=%d,named=%d,when=%s,%s) others=%d mask=%d publisher=%s(deco=%d) pubs=%d" % (
-    ds, ns, ["before-start", "after-start", "from-handler"][when], K, no, omask, ["self", "other-started", "before-its-start"][prole], pd, npub + 1)
+    ds, ns, ["before-start", "after-start", "from-handler"][when], K, no, omask, ["self", "other-started", "before-its-start"][prole], pd, npub + 1) + (" others-subscribe-%s" % OK if okind else "")
   try:
     others = []
     for i in range(no):
-      o = make(ao, hsm, "other%d" % i, (omask >> i) & 1, K)
+      o = make(ao, hsm, "other%d" % i, (omask >> i) & 1, OK)
       o.a.start_at(o.state)
-      o.a.subscribe(Event(signal="NEWS"), queue_type=K)
+      o.a.subscribe(Event(signal="NEWS"), queue_type=OK)
       others.append(o)
     by = make(ao, hsm, "bystander", 1, K)
     by.a.start_at(by.state)
@@ -139,7 +142,7 @@ def case(ds, ns, when, kind, no, omask, prole, pd, npub):
   return PASS(nontrivial=(no > 0 or not ds or (prole != 0 and not pd)))
 
 
-Family(globals(), "h_pubsub", params=[("ds", 0, 1), ("ns", 0, 1), ("when", 0, 2), ("kind", 0, 1), ("no", 0, 2), ("omask", 0, 3), ("prole", 0, 2), ("pd", 0, 1), ("npub", 0, 1)],
+Family(globals(), "h_pubsub", params=[("ds", 0, 1), ("ns", 0, 1), ("when", 0, 2), ("kind", 0, 1), ("no", 0, 2), ("omask", 0, 3), ("prole", 0, 2), ("pd", 0, 1), ("npub", 0, 1), ("okind", 0, 1)],
        pre=pre, case=case, split=["ds", "ns"], tiers=LIM)
 
 
